@@ -126,7 +126,7 @@ def outline_monitor(ctx, info, res, where="post"):
                 prev_act[name] = tuple(sn["actives"])
 
 
-def bracket_monitor(ctx, info, res):
+def bracket_monitor(ctx, info, res, ignore=()):
     """C06 (a): enter/exit alternate per frame; at every tick boundary the entered-not-exited frames are
     exactly the full outlines of running framers and of their active auxiliaries."""
     inside = {}          # (framer, frame) -> bool
@@ -146,6 +146,13 @@ def bracket_monitor(ctx, info, res):
                 for f in info.S[name].outline(sn["active"]):
                     exp.add((name, f))
         got = set(k for k, v in inside.items() if v)
+        if ignore:
+            ign = set(ignore)
+            for name, sn in snaps.items():
+                if sn.get("main") and sn["main"][0] in ign:
+                    ign.add(name)
+            exp = set(k for k in exp if k[0] not in ign)
+            got = set(k for k in got if k[0] not in ign)
         ctx.hit("boundaries_checked")
         if exp != got:
             miss = sorted(exp - got)
